@@ -41,7 +41,7 @@ def run(ctx):
         subsets = [list(c) for r in range(n + 1) for c in itertools.combinations(range(n), r)]
         for E in gen.all_digraphs(n):
             for X in subsets:
-                behs.append(ops_trace(E, n, X, rnd, family='exhaustive<=3', naming=rnd.choice(['int', 'str', 'tuple']),
+                behs.append(ops_trace(E, n, X, rnd, family='exhaustive<=3', naming=rnd.choice(['int', 'str', 'tuple', 'falsy']),
                                       reach_arg=rnd.choice(['list', 'set']), shuf=rnd.randrange(1 << 30)))
     g4 = list(gen.all_digraphs(4))
     sub4 = [list(c) for r in range(5) for c in itertools.combinations(range(4), r)]
@@ -49,14 +49,14 @@ def run(ctx):
         g4 = rnd.sample(g4, 1500)
     for E in g4:
         for X in rnd.sample(sub4, 1 if q else 3):
-            behs.append(ops_trace(E, 4, X, rnd, family='n=4', naming=rnd.choice(['int', 'str', 'tuple', 'neg']),
+            behs.append(ops_trace(E, 4, X, rnd, family='n=4', naming=rnd.choice(['int', 'str', 'tuple', 'neg', 'falsy']),
                                   reach_arg=rnd.choice(['list', 'set']), shuf=rnd.randrange(1 << 30),
                                   build=rnd.choice(['ctor', 'incr'])))
     ctx.exhaustive = not q
     for i in range(1000 if q else 30000):
         n = rnd.randint(5, 12)
         X = [v for v in range(n) if rnd.random() < 0.3]
-        behs.append(ops_trace(gen.rand_digraph(rnd, n), n, X, rnd, family='random<=12', naming=rnd.choice(['int', 'str', 'mixed']),
+        behs.append(ops_trace(gen.rand_digraph(rnd, n), n, X, rnd, family='random<=12', naming=rnd.choice(['int', 'str', 'mixed', 'falsy']),
                               reach_arg=rnd.choice(['list', 'set']), shuf=rnd.randrange(1 << 30)))
     sim = graphfam.simulate(ctx, 'MC_Digraph.tla', 'Digraph_sim.cfg', 600 if q else 12000, 10, ctx.seed + 7)
     for calls in sim:
